@@ -93,3 +93,24 @@ Theorem C20_rq_new_spec :
     rq_new RO var alpha ls =
     if Rlt_dec 0 var then if Rlt_dec 0 alpha then if Rlt_dec 0 ls then Some (var, alpha, ls) else None else None else None.
 Proof. exact rq_new_spec. Qed.
+
+(** ** Tie A: the model IS the source (expression translator).  [Generated/kernels.v] is re-translated from
+    src/predict/gps/kernels.rs on every run (tools/tiea/kernels.py, tools/rsexpr.py), operation for operation; each
+    theorem says that the translated body of the Rust function (scalar [forward] of the two kernels; the constructors,
+    a failed [assert!] being [None]) and the hand-written model function are the same function, for EVERY carrier [T]
+    and every operations record [O]. *)
+From Compute Require Import Base.RsExpr Generated.kernels Proofs.TieA_kernels.
+Theorem C20_model_is_source_RBFKernel_forward :
+  forall (T : Type) (O : Ops T) (var ls x y : T), RBFKernel_forward O var ls x y = rbf O var ls x y.
+Proof. exact @tiea_RBFKernel_forward. Qed.
+Theorem C20_model_is_source_RationalQuadraticKernel_forward :
+  forall (T : Type) (O : Ops T) (var alpha ls x y : T),
+    RationalQuadraticKernel_forward O var alpha ls x y = rq O var alpha ls x y.
+Proof. exact @tiea_RationalQuadraticKernel_forward. Qed.
+Theorem C20_model_is_source_RBFKernel_new :
+  forall (T : Type) (O : Ops T) (var ls : T), RBFKernel_new O var ls = rbf_new O var ls.
+Proof. exact @tiea_RBFKernel_new. Qed.
+Theorem C20_model_is_source_RationalQuadraticKernel_new :
+  forall (T : Type) (O : Ops T) (var alpha ls : T),
+    RationalQuadraticKernel_new O var alpha ls = rq_new O var alpha ls.
+Proof. exact @tiea_RationalQuadraticKernel_new. Qed.
